@@ -77,6 +77,11 @@ def run(ctx: Ctx):
                      "DPA, or after its own DPR", rule="C09-R7",
                      expected="return without sending when the request is an application request and "
                               "conn.state is not a ready state", observed="unconditional send_message")
+    from . import c12 as _c12
+    ctx.include(_c12.run, {"C12-R1"}, "C09-R8",
+                "a received DPR takes the connection out of the ready states on every path, exceptional "
+                "ones included (no answer of an application is written behind the peer's DPR)", floor=1,
+                constructs=lambda c: c.startswith("Node.receive_dpr"))
     from .common_node import single_transmit_gate
     single_transmit_gate(ctx, "C09-R6")
     nc = model.cls("node.node", "Node")
